@@ -517,7 +517,7 @@ PROPS = {
                     ("mix", 1024, 1000000, 30, 40), ("cuts", 256, None, 20, 30), ("big", 1048576, None, 5, 16)],
             "conn": [("big", 1048576, None, 4, 14)], "conc": [("base", 200)], "slow": True,
             "monitor_kinds": ["STUCK", "SLOW"], "relevant": "RMWT"},
-    "C02": {"seq": [("cas", 1024, None, 80, 50), ("mix", 1024, None, 30, 40), ("ttl", 1024, None, 30, 40),
+    "C02": {"seq": [("cas", 1024, 1000000, 15, 40), ("cas", 1024, None, 80, 50), ("mix", 1024, None, 30, 40), ("ttl", 1024, None, 30, 40),
                     ("counter", 1024, None, 30, 40)], "conc": [("base", 200)], "pol": 100,
             "monitor_kinds": ["STUCK", "NONLIN", "VANISH"], "relevant": "RMWTP"},
     "C03": {"seq": [("cas", 1024, None, 20, 30)], "conc": [("base", 500)], "pol": 150, "relevant": "RMTP"},
@@ -526,16 +526,16 @@ PROPS = {
     "C16": {"seq": [("policy", 1024, 200, 10, 30)], "conn": [("idle", 1024, None, 3, 14)],
             "conc": [("base", 250), ("rmw", 250)], "sweep": 300, "pol": 100, "relevant": "TS",
             "monitor_kinds": ["STUCK"]},
-    "C05": {"seq": [("ttl", 1024, None, 80, 50), ("flush", 1024, None, 60, 50), ("mix", 1024, None, 30, 40)],
+    "C05": {"seq": [("ttl", 1024, 1000000, 15, 40), ("ttl", 1024, None, 80, 50), ("flush", 1024, None, 60, 50), ("mix", 1024, None, 30, 40)],
             "conc": [("ttl", 300)], "monitor_kinds": ["STUCK", "NONLIN"], "known_classes": True, "known_from": "C04",
             "relevant": "RMWT"},
-    "C06": {"seq": [("mix", 1024, None, 60, 40), ("cas", 1024, None, 40, 40), ("ttl", 1024, None, 40, 40),
+    "C06": {"seq": [("mix", 1024, 1000000, 15, 40), ("mix", 1024, None, 60, 40), ("cas", 1024, None, 40, 40), ("ttl", 1024, None, 40, 40),
                     ("flush", 1024, None, 20, 40), ("mix", 64, None, 20, 40)],
             "conc": [("ttl", 300)], "monitor_kinds": ["STUCK", "NONLIN"], "known_classes": True, "known_from": "C04",
             "relevant": "RMWT"},
-    "C07": {"seq": [("counter", 1024, None, 100, 50), ("cas", 1024, None, 20, 40), ("ttl", 1024, None, 20, 40)],
+    "C07": {"seq": [("counter", 1024, 1000000, 15, 40), ("counter", 1024, None, 100, 50), ("cas", 1024, None, 20, 40), ("ttl", 1024, None, 20, 40)],
             "relevant": "RMW"},
-    "C08": {"seq": [("flush", 1024, None, 80, 50), ("ttl", 1024, None, 40, 50), ("cas", 1024, None, 30, 40),
+    "C08": {"seq": [("flush", 1024, 1000000, 15, 40), ("flush", 1024, None, 80, 50), ("ttl", 1024, None, 40, 50), ("cas", 1024, None, 30, 40),
                     ("wide", 1024, None, 30, 40)],
             "conn": [("flush", 1024, None, 30, 30), ("quiet", 1024, None, 15, 25)], "relevant": "RMW"},
     "C09": {"seq": [("cuts", 1024, None, 60, 30), ("malformed", 1024, None, 60, 30), ("malformed", 100, None, 40, 30),
@@ -571,7 +571,7 @@ PROPS = {
             "conn": [("cuts", 1024, None, 30, 25), ("malformed", 1024, None, 30, 25), ("mix", 1024, None, 20, 25),
                      ("idle", 1024, None, 3, 14)],
             "limit": 4, "relevant": "RSMV"},
-    "C19": {"seq": [("quiet", 1024, None, 80, 50), ("mix", 1024, None, 30, 40), ("counter", 1024, None, 30, 40),
+    "C19": {"seq": [("quiet", 1024, 1000000, 15, 40), ("quiet", 1024, None, 80, 50), ("mix", 1024, None, 30, 40), ("counter", 1024, None, 30, 40),
                     ("malformed", 100, None, 30, 30)],
             "conn": [("quiet", 100, None, 20, 25), ("malformed", 100, None, 20, 25)], "relevant": "RMWS"},
 }
